@@ -1703,22 +1703,218 @@ theorem table_rows_facts (d : Nat) (hd : d ≠ 10) (bs : Bytes) (n : Nat) (hne :
   rw [hst, hen] at hmem
   exact pairs_wf (isDelim d) (complete bs) p hmem
 
+/-! ### row selection on the buffer commutes with parsing -/
+
+theorem pickIdx_map {α β : Type} (f : α → β) (idx : List Nat) (l : List α) :
+    pickIdx idx (l.map f) = (pickIdx idx l).map f := by
+  simp [pickIdx, List.map_filterMap, List.getElem?_map]
+
+theorem mem_pickIdx {α : Type} (idx : List Nat) (l : List α) (x : α) (h : x ∈ pickIdx idx l) : x ∈ l := by
+  unfold pickIdx at h
+  obtain ⟨i, _, hi⟩ := List.mem_filterMap.mp h
+  exact List.mem_of_getElem? hi
+
+theorem pickIdx_length_range {α : Type} (idx : List Nat) (l : List α) :
+    (pickIdx idx l).length = (pickIdx idx (List.range l.length)).length := by
+  unfold pickIdx
+  induction idx with
+  | nil => rfl
+  | cons i rest ih =>
+    simp only [List.filterMap_cons]
+    rcases Nat.lt_or_ge i l.length with h | h
+    · rw [List.getElem?_eq_getElem h, List.getElem?_eq_getElem (by simpa using h)]
+      simp [ih]
+    · rw [List.getElem?_eq_none h, List.getElem?_eq_none (by simpa using h)]
+      exact ih
+
+theorem omap_getElem? {α β : Type} (f : α → Option β) (l : List α) (v : List β) (h : omap f l = some v) (i : Nat) :
+    v[i]? = (l[i]?).bind f := by
+  induction l generalizing v i with
+  | nil => simp at h; subst h; simp
+  | cons a as ih =>
+    obtain ⟨b, bs, hb, hbs, rfl⟩ := omap_cons_eq_some f a as v h
+    cases i with
+    | zero => simp [hb]
+    | succ j => simpa using ih bs hbs j
+
+theorem omap_pickIdx {α β : Type} (f : α → Option β) (l : List α) (v : List β) (idx : List Nat)
+    (h : omap f l = some v) : omap f (pickIdx idx l) = some (pickIdx idx v) := by
+  have hlen : v.length = l.length := omap_length f l v h
+  unfold pickIdx
+  induction idx with
+  | nil => rfl
+  | cons i rest ih =>
+    simp only [List.filterMap_cons]
+    have hi := omap_getElem? f l v h i
+    cases hx : l[i]? with
+    | none =>
+      rw [hx] at hi
+      simp only [Option.bind_none] at hi
+      simp only [hi]; exact ih
+    | some x =>
+      rw [hx] at hi
+      simp only [Option.bind_some] at hi
+      have hlt : i < v.length := by
+        rcases Nat.lt_or_ge i l.length with h' | h'
+        · omega
+        · rw [List.getElem?_eq_none h'] at hx; simp at hx
+      rw [List.getElem?_eq_getElem hlt] at hi
+      rw [List.getElem?_eq_getElem hlt]
+      exact omap_cons_some _ _ _ _ _ hi.symm ih
+
+theorem columnOf_pickIdx {α : Type} (idx : List Nat) (recs : List (List α)) (j : Nat) (h : ∀ r ∈ recs, j < r.length) :
+    columnOf (pickIdx idx recs) j = pickIdx idx (columnOf recs j) := by
+  unfold columnOf pickIdx
+  induction idx with
+  | nil => rfl
+  | cons i rest ih =>
+    simp only [List.filterMap_cons]
+    rcases Nat.lt_or_ge i recs.length with hi | hi
+    · have hcol : (List.filterMap (fun x => x[j]?) recs)[i]? = some ((recs[i])[j]'(h _ (List.getElem_mem hi))) := by
+        have hall : List.filterMap (fun x : List α => x[j]?) recs = recs.pmap (fun r hr => r[j]'hr) h := by
+          clear hi ih
+          induction recs with
+          | nil => rfl
+          | cons r rs ihr =>
+            have hr : j < r.length := h r (by simp)
+            simp only [List.filterMap_cons, List.getElem?_eq_getElem hr, List.pmap]
+            rw [ihr (fun r' hr' => h r' (by simp [hr']))]
+        rw [hall, List.getElem?_pmap]
+        simp [List.getElem?_eq_getElem hi]
+      rw [List.getElem?_eq_getElem hi, hcol]
+      simp only [List.filterMap_cons, List.getElem?_eq_getElem (h _ (List.getElem_mem hi))]
+      rw [ih]
+    · have hcol : (List.filterMap (fun x : List α => x[j]?) recs)[i]? = none := by
+        apply List.getElem?_eq_none
+        have := List.length_filterMap_le (fun x : List α => x[j]?) recs
+        omega
+      rw [List.getElem?_eq_none hi, hcol]
+      exact ih
+
+theorem all_pickIdx {α : Type} (p : α → Bool) (idx : List Nat) (l : List α) (h : l.all p = true) :
+    (pickIdx idx l).all p = true := by
+  rw [List.all_eq_true] at h ⊢
+  intro x hx
+  exact h x (mem_pickIdx idx l x hx)
+
+theorem specColumn_pick (k : String) (texts : List Bytes) (c : Col) (idx : List Nat)
+    (h : specColumn k texts = some c) : specColumn k (pickIdx idx texts) = some (colPick idx c) := by
+  unfold specColumn at h ⊢
+  split
+  · rw [if_pos (by assumption)] at h
+    cases ho : omap specNatI texts with
+    | none => rw [ho] at h; simp at h
+    | some v =>
+      rw [ho] at h; simp only [Option.map_some, Option.some.injEq] at h; subst h
+      rw [omap_pickIdx _ _ _ idx ho]; rfl
+  · rw [if_neg (by assumption)] at h
+    split
+    · rw [if_pos (by assumption)] at h
+      cases ho : omap specInt texts with
+      | none => rw [ho] at h; simp at h
+      | some v =>
+        rw [ho] at h; simp only [Option.map_some, Option.some.injEq] at h; subst h
+        rw [omap_pickIdx _ _ _ idx ho]; rfl
+    · rw [if_neg (by assumption)] at h
+      split
+      · rw [if_pos (by assumption)] at h
+        cases ho : omap specOInt texts with
+        | none => rw [ho] at h; simp at h
+        | some v =>
+          rw [ho] at h; simp only [Option.map_some, Option.some.injEq] at h; subst h
+          rw [omap_pickIdx _ _ _ idx ho]; rfl
+      · rw [if_neg (by assumption)] at h
+        split
+        · rw [if_pos (by assumption)] at h
+          split at h
+          · rename_i hall
+            simp only [Option.some.injEq] at h; subst h
+            rw [if_pos (all_pickIdx _ idx texts hall)]; rfl
+          · simp at h
+        · rw [if_neg (by assumption)] at h
+          split
+          · rw [if_pos (by assumption)] at h
+            simp only [Option.some.injEq] at h; subst h; rfl
+          · rw [if_neg (by assumption)] at h
+            split
+            · rw [if_pos (by assumption)] at h
+              simp only [Option.some.injEq] at h; subst h; rfl
+            · rw [if_neg (by assumption)] at h
+              split
+              · rw [if_pos (by assumption)] at h
+                cases ho : omap specIntList texts with
+                | none => rw [ho] at h; simp at h
+                | some v =>
+                  rw [ho] at h; simp only [Option.map_some, Option.some.injEq] at h; subst h
+                  rw [omap_pickIdx _ _ _ idx ho]; rfl
+              · rw [if_neg (by assumption)] at h
+                split
+                · rw [if_pos (by assumption)] at h
+                  split at h
+                  · rename_i hall
+                    simp only [Option.some.injEq] at h; subst h
+                    rw [if_pos (all_pickIdx _ idx texts hall)]; rfl
+                  · simp at h
+                · rw [if_neg (by assumption)] at h
+                  simp at h
+
+theorem specColumnsFrom_pick (recs : List (List Bytes)) (idx : List Nat) (j : Nat) (sks : List String) (cs : List Col)
+    (n : Nat) (hrect : ∀ r ∈ recs, r.length = n) (hj : j + sks.length ≤ n)
+    (h : specColumnsFrom recs j sks = some cs) :
+    specColumnsFrom (pickIdx idx recs) j sks = some (cs.map (colPick idx)) := by
+  induction sks generalizing j cs with
+  | nil => simp [specColumnsFrom] at h ⊢; subst h; rfl
+  | cons k ks ih =>
+    simp only [specColumnsFrom] at h ⊢
+    split at h
+    · rename_i c cs' hc hcs
+      simp only [Option.some.injEq] at h; subst h
+      simp only [List.length_cons] at hj
+      rw [columnOf_pickIdx idx recs j (fun r hr => by rw [hrect r hr]; omega), specColumn_pick k _ c idx hc,
+        ih (j + 1) cs' (by omega) hcs]
+      rfl
+    · simp at h
+
+
 theorem parse_assemble (S : Schema) (sks : List String) (bs : Bytes) (t : Table)
     (hk : S.cols.map (·.2) = sks.map normKind) (ht : fieldTable S.delim bs = .ok t)
     (recs : List (List Bytes))
     (htx : (crAdjustRows (complete bs) t.rows).map (fun r => r.map (fun p => slice (complete bs) p.1 p.2)) = recs)
     (hwf : ∀ r ∈ crAdjustRows (complete bs) t.rows, ∀ p ∈ r, p.1 ≤ p.2 ∧ p.2 ≤ (complete bs).length)
-    (cs : List Col) (hspec : specColumnsFrom recs 0 sks = some cs) :
-    parseDelimited S bs = .ok (recs.length, cs) := by
+    (cs : List Col) (hspec : specColumnsFrom recs 0 sks = some cs)
+    (sel : Option (List Nat)) (hrect : ∀ r ∈ recs, r.length = sks.length) (hsel : selOK sel recs.length = true) :
+    parseDelimited S bs sel = .ok (resPick sel (recs.length, cs)) := by
   have hlen : (crAdjustRows (complete bs) t.rows).length = recs.length := by
     have := congrArg List.length htx
     simpa using this
-  have hcols : typedColumns (S.cols.map (·.2)) (complete bs) (crAdjustRows (complete bs) t.rows) = .ok cs := by
-    unfold typedColumns
-    rw [hk]
-    exact typedColumnsFrom_spec (complete bs) _ hwf sks 0 cs (by rw [htx]; exact hspec)
-  unfold parseDelimited
-  simp only [ht, pickRows_none, hcols, hlen]
+  cases sel with
+  | none =>
+    have hcols : typedColumns (S.cols.map (·.2)) (complete bs) (crAdjustRows (complete bs) t.rows) = .ok cs := by
+      unfold typedColumns
+      rw [hk]
+      exact typedColumnsFrom_spec (complete bs) _ hwf sks 0 cs (by rw [htx]; exact hspec)
+    unfold parseDelimited
+    simp only [ht, pickRows_none, hcols, hlen, selOK, resPick]
+    rfl
+  | some idx =>
+    have hpick : pickRows (some idx) (crAdjustRows (complete bs) t.rows) = pickIdx idx (crAdjustRows (complete bs) t.rows) := rfl
+    have htx' : (pickIdx idx (crAdjustRows (complete bs) t.rows)).map (fun r => r.map (fun p => slice (complete bs) p.1 p.2))
+        = pickIdx idx recs := by
+      rw [← pickIdx_map, htx]
+    have hwf' : ∀ r ∈ pickIdx idx (crAdjustRows (complete bs) t.rows), ∀ p ∈ r, p.1 ≤ p.2 ∧ p.2 ≤ (complete bs).length :=
+      fun r hr => hwf r (mem_pickIdx idx _ r hr)
+    have hcols : typedColumns (S.cols.map (·.2)) (complete bs) (pickIdx idx (crAdjustRows (complete bs) t.rows))
+        = .ok (cs.map (colPick idx)) := by
+      unfold typedColumns
+      rw [hk]
+      exact typedColumnsFrom_spec (complete bs) _ hwf' sks 0 _ (by
+        rw [htx']
+        exact specColumnsFrom_pick recs idx 0 sks cs sks.length hrect (by omega) hspec)
+    have hl : (pickIdx idx (crAdjustRows (complete bs) t.rows)).length = (pickIdx idx (List.range recs.length)).length := by
+      rw [pickIdx_length_range, hlen]
+    unfold parseDelimited
+    simp only [ht, hpick, hcols, hlen, hsel, hl, resPick]
+    rfl
 
 /-- the CR rule leaves a table alone when the first line does not end in CR -/
 theorem crAdjust_lf (data : Bytes) (d : Nat) (hd13 : d ≠ 13) (rows : List (List (Nat × Nat))) (lines : List Bytes)
@@ -1935,8 +2131,9 @@ theorem parse_delimited (S : Schema) (sks : List String) (bs : Bytes)
     (huni : (∀ l ∈ linesOf bs, l.getLast? ≠ some 13) ∨ crlfText (linesOf bs) = true)
     (hlen : ∀ l ∈ specLines bs, (splitOn S.delim l).length = sks.length)
     (cs : List Col)
-    (hspec : specColumnsFrom ((specLines bs).map (splitOn S.delim)) 0 sks = some cs) :
-    parseDelimited S bs = .ok ((linesOf bs).length, cs) := by
+    (hspec : specColumnsFrom ((specLines bs).map (splitOn S.delim)) 0 sks = some cs)
+    (sel : Option (List Nat) := none) (hsel : selOK sel (linesOf bs).length = true := by rfl) :
+    parseDelimited S bs sel = .ok (resPick sel ((linesOf bs).length, cs)) := by
   rcases huni with hnocr | hcr
   · -- LF
     have hsl : specLines bs = linesOf bs := by
@@ -1953,7 +2150,8 @@ theorem parse_delimited (S : Schema) (sks : List String) (bs : Bytes)
     obtain ⟨t, ht, htexts, hwfp⟩ := table_rows_facts S.delim hd bs sks.length hne hlen
     have hcr := crAdjust_lf (complete bs) S.delim hd13 t.rows (linesOf bs) htexts hwfp hnocr
     have := parse_assemble S sks bs t hk ht _ (by rw [hcr]; exact htexts)
-      (by rw [hcr]; intro r hr p hp; obtain ⟨h1, h2, _, _⟩ := hwfp r hr p hp; exact ⟨h1, by omega⟩) cs hspec
+      (by rw [hcr]; intro r hr p hp; obtain ⟨h1, h2, _, _⟩ := hwfp r hr p hp; exact ⟨h1, by omega⟩) cs hspec sel
+      (by intro r hr; obtain ⟨l, hl, rfl⟩ := List.mem_map.mp hr; exact hlen l hl) (by simpa using hsel)
     simpa using this
   · -- CRLF text: every line but possibly the last ends in CR
     have hsl : specLines bs = (linesOf bs).map stripCR := by
@@ -1969,7 +2167,9 @@ theorem parse_delimited (S : Schema) (sks : List String) (bs : Bytes)
       (crlfText_first _ hcr)
     have := parse_assemble S sks bs t hk ht _ (by rw [htx]) hwf' cs (by
       rw [List.map_map] at hspec
-      exact hspec)
+      exact hspec) sel
+      (by intro r hr; obtain ⟨l, hl, rfl⟩ := List.mem_map.mp hr
+          exact hlen (stripCR l) (List.mem_map.mpr ⟨l, hl, rfl⟩)) (by simpa using hsel)
     simpa using this
 
 /-! ### wrapped FASTA: grouping the lines into records -/
@@ -3387,5 +3587,339 @@ theorem gtUnknownOld_unsound :
     gtDecode (gtEncode [51, 47, 49]) = [48, 47, 49] ∧ gtOK "VCFMatrixBuffer" [51, 47, 49] = false := by decide
 
 example : gtOK "VCFMatrixBuffer" [49, 124, 46] = true := by decide
+
+
+/-! ### whole-file parse of the plain delimited family = the documented reading (`parseFile` vs `specParse`) -/
+
+theorem splitOn_unlines_tail (ls : List Bytes) (t : Bytes) (hfree : ∀ l ∈ ls, 10 ∉ l) (ht : 10 ∉ t) :
+    splitOn 10 (unlines ls ++ t) = ls ++ [t] := by
+  induction ls with
+  | nil => simpa [unlines] using splitOn_free' 10 t ht
+  | cons l rest ih =>
+    have h1 : unlines (l :: rest) ++ t = l ++ 10 :: (unlines rest ++ t) := by simp [unlines]
+    have hl : 10 ∉ l := hfree l (by simp)
+    have key : ∀ (l : Bytes) (r : Bytes), 10 ∉ l → splitOn 10 (l ++ 10 :: r) = l :: splitOn 10 r := by
+      intro l r hl
+      induction l with
+      | nil => simp [splitOn]
+      | cons b bs ihb =>
+        have hb : b ≠ 10 := fun h => hl (by simp [h])
+        have hbs : 10 ∉ bs := fun h => hl (by simp [h])
+        simp only [List.cons_append, splitOn, hb, if_false, ihb hbs, consHead]
+    rw [h1, key l _ hl, ih (fun l' hl' => hfree l' (by simp [hl']))]
+    simp
+
+theorem linesOf_unlines_tail (ls : List Bytes) (t : Bytes) (hfree : ∀ l ∈ ls, 10 ∉ l) (ht : 10 ∉ t) :
+    linesOf (unlines ls ++ t) = ls ∧ tailOf (unlines ls ++ t) = t := by
+  unfold linesOf tailOf
+  rw [splitOn_unlines_tail ls t hfree ht]
+  simp
+
+theorem unlines_getLast (ls : List Bytes) (h : ls ≠ []) : (unlines ls).getLast? = some 10 := by
+  obtain ⟨init, l, rfl⟩ : ∃ init l, ls = init ++ [l] := ⟨ls.dropLast, ls.getLast h, (List.dropLast_concat_getLast h).symm⟩
+  rw [unlines_snoc]
+  simp
+
+/-- the lines of a text whose last line may be unterminated: the complete lines, then the tail if there is one -/
+theorem linesOf_ensureNl (bs : Bytes) :
+    linesOf (ensureNl bs) = linesOf bs ++ (if tailOf bs = [] then [] else [tailOf bs]) := by
+  have hdec := unlines_linesOf bs
+  by_cases ht : tailOf bs = []
+  · have hcond : bs = [] ∨ bs.getLast? = some 10 := by
+      rw [ht, List.append_nil] at hdec
+      by_cases hl : linesOf bs = []
+      · left; rw [hdec, hl]; rfl
+      · right; rw [hdec]; exact unlines_getLast _ hl
+    unfold ensureNl
+    rw [if_pos hcond, if_pos ht, List.append_nil]
+  · have hne : bs ≠ [] := by
+      intro h; rw [h] at ht; exact ht rfl
+    have hlast : bs.getLast? ≠ some 10 := by
+      intro h
+      have : (tailOf bs).getLast? = some 10 := by
+        rw [hdec, List.getLast?_append] at h
+        cases hq : (tailOf bs).getLast? with
+        | none => exact absurd (List.getLast?_eq_none_iff.mp hq) ht
+        | some x => rw [hq] at h; simpa using h
+      exact tailOf_free bs (List.mem_of_getLast? this)
+    unfold ensureNl
+    rw [if_neg (by intro h; rcases h with h | h; exact hne h; exact hlast h), if_neg ht]
+    have : bs ++ [10] = unlines (linesOf bs ++ [tailOf bs]) ++ [] := by
+      rw [unlines_snoc, List.append_nil]
+      conv => lhs; rw [hdec]
+    rw [this]
+    exact (linesOf_unlines_tail _ [] (by
+      intro l hl
+      simp only [List.mem_append, List.mem_singleton] at hl
+      rcases hl with hl | rfl
+      · exact linesOf_free bs l hl
+      · exact tailOf_free bs) (by simp)).1
+
+theorem dropHeaderLines_snoc (c : Nat) (ls : List Bytes) (t : Bytes) (h : ¬(c ≠ 0 ∧ t.head? = some c)) :
+    dropHeaderLines c (ls ++ [t]) = dropHeaderLines c ls ++ [t] := by
+  induction ls with
+  | nil => simp [dropHeaderLines, h]
+  | cons l rest ih =>
+    simp only [List.cons_append, dropHeaderLines]
+    split
+    · exact ih
+    · rfl
+
+theorem dropHeaderLines_free (c : Nat) (ls : List Bytes) (h : ∀ l ∈ ls, 10 ∉ l) : ∀ l ∈ dropHeaderLines c ls, 10 ∉ l := by
+  induction ls with
+  | nil => simp [dropHeaderLines]
+  | cons l rest ih =>
+    simp only [dropHeaderLines]
+    split
+    · exact ih (fun l' hl' => h l' (by simp [hl']))
+    · exact h
+
+/-- what `bnp.open` hands to the buffer (header lines read off, final newline supplied) has as its complete lines the
+lines of the text without the leading comment lines -/
+theorem linesOf_openInput (c : Nat) (bs0 : Bytes) (htail : ¬(c ≠ 0 ∧ (tailOf bs0).head? = some c)) :
+    linesOf (ensureNl (dropHeader c bs0)) = dropHeaderLines c (linesOf (ensureNl bs0)) := by
+  have hfree := dropHeaderLines_free c _ (linesOf_free bs0)
+  obtain ⟨hl, ht⟩ := linesOf_unlines_tail (dropHeaderLines c (linesOf bs0)) (tailOf bs0) hfree (tailOf_free bs0)
+  rw [linesOf_ensureNl, linesOf_ensureNl]
+  unfold dropHeader
+  rw [hl, ht]
+  by_cases h0 : tailOf bs0 = []
+  · simp [h0]
+  · simp only [h0, if_false]
+    exact (dropHeaderLines_snoc c _ _ htail).symm
+
+theorem dropHeaderLines_suffix (c : Nat) (ls : List Bytes) : ∃ pre, ls = pre ++ dropHeaderLines c ls := by
+  induction ls with
+  | nil => exact ⟨[], rfl⟩
+  | cons l rest ih =>
+    simp only [dropHeaderLines]
+    split
+    · obtain ⟨pre, hpre⟩ := ih
+      exact ⟨l :: pre, by rw [List.cons_append, ← hpre]⟩
+    · exact ⟨[], rfl⟩
+
+theorem stripCR_id (l : Bytes) (h : l.getLast? ≠ some 13) : stripCR l = l := by
+  unfold stripCR; rw [if_neg h]
+
+theorem head_stripCR (c : Nat) (hc : c ≠ 13) (l : Bytes) : ((stripCR l).head? = some c) ↔ (l.head? = some c) := by
+  unfold stripCR
+  split
+  · rename_i h
+    match l, h with
+    | [x], h =>
+      simp only [List.getLast?_singleton, Option.some.injEq] at h
+      subst h
+      simp [hc.symm]
+    | x :: y :: rest, _ => simp [List.dropLast]
+  · rfl
+
+theorem dropHeaderLines_map_stripCR (c : Nat) (hc : c ≠ 13) (ls : List Bytes) :
+    dropHeaderLines c (ls.map stripCR) = (dropHeaderLines c ls).map stripCR := by
+  induction ls with
+  | nil => rfl
+  | cons l rest ih =>
+    simp only [List.map_cons, dropHeaderLines]
+    by_cases h : c ≠ 0 ∧ l.head? = some c
+    · rw [if_pos h, if_pos ⟨h.1, (head_stripCR c hc l).mpr h.2⟩, ih]
+    · rw [if_neg h, if_neg (fun h' => h ⟨h'.1, (head_stripCR c hc l).mp h'.2⟩)]
+      rfl
+
+/-- line-end style of the data lines of a text, given the style of the whole text -/
+theorem style_of_suffix (L pre Dl : List Bytes) (hL : L = pre ++ Dl) (hne : Dl ≠ []) :
+    (crlfText L = true → (crlfText Dl = true ∨ ∀ l ∈ Dl, l.getLast? ≠ some 13)) ∧
+    (crlfText L = false → (∀ l ∈ L, 13 ∉ l) → crlfText Dl = false ∧ ∀ l ∈ Dl, l.getLast? ≠ some 13) := by
+  constructor
+  · intro h
+    unfold crlfText at h
+    simp only [Bool.and_eq_true, List.all_eq_true] at h
+    have hall : ∀ l ∈ Dl.dropLast, (decide (l.getLast? = some 13)) = true := by
+      intro l hl
+      apply h.1
+      rw [hL, List.dropLast_append_of_ne_nil hne]
+      simp [hl]
+    by_cases hany : Dl.any (fun l => l.getLast? = some 13) = true
+    · left
+      unfold crlfText
+      simp only [Bool.and_eq_true, List.all_eq_true]
+      exact ⟨hall, hany⟩
+    · right
+      intro l hl h13
+      apply hany
+      rw [List.any_eq_true]
+      exact ⟨l, hl, by simpa using h13⟩
+  · intro _ hno
+    have hnone : ∀ l ∈ Dl, l.getLast? ≠ some 13 := by
+      intro l hl h13
+      exact hno l (by rw [hL]; simp [hl]) (List.mem_of_getLast? h13)
+    refine ⟨?_, hnone⟩
+    unfold crlfText
+    rw [Bool.and_eq_false_iff]
+    right
+    rw [Bool.eq_false_iff]
+    intro hany
+    rw [List.any_eq_true] at hany
+    obtain ⟨l, hl, h13⟩ := hany
+    exact hnone l hl (by simpa using h13)
+
+/-- **parseFile_delimited_spec.** The driver-level statement for the plain delimited family (BED3/6/12, bedGraph,
+narrowPeak, chrom.sizes, GTF, pairs): for every text — read through `bnp.open` (leading comment lines skipped, final
+newline supplied; an unterminated last line that is itself a comment excluded) or handed over as a raw buffer ending in
+a newline —, LF or CRLF, and every row selection within the table: WHENEVER the documented reading `specParse` of the
+text exists, the code's parse `parseFile` (header skip → offset table → CR rule → row selection → typed extraction)
+returns exactly that table with the selected rows. `parseFile`, `specParse` and `resPick` are the functions the driver
+replies with. -/
+theorem parseFile_delimited_spec (fmt : String) (S : Schema) (D : DocFmt) (viaOpen : Bool) (bs0 : Bytes)
+    (shift : Int) (sel : Option (List Nat))
+    (hf1 : fmt ≠ "fasta") (hf2 : fmt ≠ "sam") (hf3 : fmt ≠ "vcf") (hf4 : fmt ≠ "gfa")
+    (hk1 : ¬ S.linesPerEntry > 1) (hi1 : S.interiorComments = false) (hi2 : D.interior = false)
+    (hdoc : docFormats.find? (·.1 == fmt) = some (fmt, D))
+    (hk : S.cols.map (·.2) = (D.cols.map (·.2)).map normKind) (hd : S.delim = 9) (hc : S.comment = D.comment)
+    (hc13 : D.comment ≠ 13)
+    (htail : if viaOpen then ¬(D.comment ≠ 0 ∧ (tailOf bs0).head? = some D.comment) else tailOf bs0 = [])
+    (r : Nat × List Col) (hspec : specParse fmt viaOpen bs0 = some r) (hsel : selOK sel r.1 = true) :
+    parseFile fmt S viaOpen bs0 shift sel = .ok (resPick sel r) := by
+  -- the model falls through to the plain delimited parser
+  have hmodel : parseFile fmt S viaOpen bs0 shift sel
+      = parseDelimited S (if viaOpen then ensureNl (dropHeader S.comment bs0) else bs0) sel := by
+    unfold parseFile
+    simp only [hf1, hf2, hf3, hf4, hk1, hi1, if_false, Bool.false_eq_true]
+  rw [hmodel]
+  -- the spec side
+  simp only [specParse, hdoc] at hspec
+  cases hrec : specRecords D viaOpen fmt bs0 with
+  | none => rw [hrec] at hspec; simp at hspec
+  | some recs =>
+    rw [hrec] at hspec
+    simp only at hspec
+    split at hspec
+    · simp at hspec
+    · rename_i hrne
+      cases hcols : specColumnsFrom recs 0 (D.cols.map (·.2)) with
+      | none => rw [hcols] at hspec; simp at hspec
+      | some cols =>
+        rw [hcols] at hspec
+        simp only [hf3, if_false, Option.some.injEq] at hspec
+        subst hspec
+        unfold specRecords at hrec
+        simp only [hi2, hf2, hf3, hf4, if_false, Bool.false_eq_true] at hrec
+        -- names for the pieces
+        generalize hLdef : linesOf (ensureNl bs0) = L at hrec
+        generalize hL'def : (if crlfText L = true then List.map stripCR L else L) = L' at hrec
+        generalize hL''def : (if viaOpen = true then dropHeaderLines D.comment L' else L') = L'' at hrec
+        split at hrec
+        · simp at hrec
+        · rename_i hno13
+          split at hrec
+          · rename_i hall
+            simp only [Option.some.injEq] at hrec
+            -- the complete lines of the model's input are the data lines of the text
+            obtain ⟨Dl, hDl⟩ : ∃ Dl : List Bytes, Dl = (if viaOpen = true then dropHeaderLines D.comment L else L) := ⟨_, rfl⟩
+            have hlines : linesOf (if viaOpen = true then ensureNl (dropHeader S.comment bs0) else bs0) = Dl := by
+              rw [hDl]
+              cases viaOpen with
+              | true =>
+                simp only [if_true] at htail ⊢
+                rw [hc, linesOf_openInput D.comment bs0 htail, hLdef]
+              | false =>
+                simp only [Bool.false_eq_true, if_false] at htail ⊢
+                rw [← hLdef, linesOf_ensureNl, htail]
+                simp
+            have hsuf : ∃ pre, L = pre ++ Dl := by
+              rw [hDl]
+              cases viaOpen with
+              | true => exact dropHeaderLines_suffix D.comment L
+              | false => exact ⟨[], rfl⟩
+            obtain ⟨pre, hpre⟩ := hsuf
+            -- the spec's lines in terms of the data lines
+            have hspecLines : L'' = (if crlfText L = true then Dl.map stripCR else Dl) := by
+              rw [← hL''def, ← hL'def, hDl]
+              cases viaOpen with
+              | true =>
+                by_cases hcr : crlfText L = true
+                · simp only [hcr, if_true]; exact dropHeaderLines_map_stripCR D.comment hc13 L
+                · simp only [hcr, if_false, if_true]; rfl
+              | false => simp only [Bool.false_eq_true, if_false]
+            rw [hspecLines] at hrec hall
+            have hDne : Dl ≠ [] := by
+              intro h0
+              apply hrne
+              rw [← hrec, h0]
+              split <;> rfl
+            have hstyle := style_of_suffix L pre Dl hpre hDne
+            -- line-end style of the data lines, and the lines as the format reads them
+            have hfacts : ((∀ l ∈ Dl, l.getLast? ≠ some 13) ∨ crlfText Dl = true) ∧
+                (if crlfText Dl = true then Dl.map stripCR else Dl) = (if crlfText L = true then Dl.map stripCR else Dl) := by
+              by_cases hcr : crlfText L = true
+              · rcases hstyle.1 hcr with h1 | h1
+                · exact ⟨Or.inr h1, by simp [hcr, h1]⟩
+                · refine ⟨Or.inl h1, ?_⟩
+                  have hid : Dl.map stripCR = Dl := by
+                    conv => rhs; rw [← List.map_id Dl]
+                    exact List.map_congr_left (fun l hl => stripCR_id l (h1 l hl))
+                  simp only [hcr, if_true, hid]
+                  split <;> rfl
+              · have hcrf : crlfText L = false := by simpa using hcr
+                have hno : ∀ l ∈ L, 13 ∉ l := by
+                  intro l hl h13
+                  apply hno13
+                  rw [← hL'def]
+                  simp only [hcrf, Bool.false_eq_true, if_false, List.any_eq_true]
+                  exact ⟨l, hl, by simpa using h13⟩
+                obtain ⟨h1, h2⟩ := hstyle.2 hcrf hno
+                exact ⟨Or.inl h2, by simp [hcrf, h1]⟩
+            have hsl : specLines (if viaOpen = true then ensureNl (dropHeader S.comment bs0) else bs0)
+                = (if crlfText L = true then Dl.map stripCR else Dl) := by
+              unfold specLines
+              simp only [hlines]
+              exact hfacts.2
+            have hlen2 : (linesOf (if viaOpen = true then ensureNl (dropHeader S.comment bs0) else bs0)).length = recs.length := by
+              rw [hlines, ← hrec]
+              split <;> simp
+            have := parse_delimited S (D.cols.map (·.2)) _ hk (by rw [hd]; decide) (by rw [hd]; decide)
+              (by rw [hlines]; exact hDne) (by rw [hlines]; exact hfacts.1)
+              (by
+                rw [hsl, hd]
+                intro l hl
+                rw [List.all_eq_true] at hall
+                have := hall (splitOn 9 l) (List.mem_map.mpr ⟨l, hl, rfl⟩)
+                simpa using this)
+              cols (by rw [hsl, hd, hrec]; exact hcols) sel (by rw [hlen2]; exact hsel)
+            rw [this, hlen2]
+          · simp at hrec
+
+/-- **parseFile_sel_out_of_range.** A row index outside the table is an error (IndexError), never a row left out. -/
+theorem parseDelimited_sel_out_of_range (S : Schema) (bs : Bytes) (t : Table) (idx : List Nat)
+    (ht : fieldTable S.delim bs = .ok t) (h : ∃ i ∈ idx, (crAdjustRows (complete bs) t.rows).length ≤ i) :
+    parseDelimited S bs (some idx) = .error .shape := by
+  have hsel : selOK (some idx) (crAdjustRows (complete bs) t.rows).length = false := by
+    obtain ⟨i, hi, hle⟩ := h
+    simp only [selOK]
+    rw [Bool.eq_false_iff]
+    intro hall
+    have := (List.all_eq_true.mp hall) i hi
+    simp at this
+    omega
+  unfold parseDelimited
+  simp only [ht, hsel]
+  rfl
+
+/-- the hypotheses of `parseFile_delimited_spec` about the schema hold for every format of the plain delimited family,
+with the schema regenerated from the running package and the documented format typed in `docFormats` -/
+theorem gen_delimited_family :
+    ["bed3", "bed6", "bed12", "bdg", "narrowpeak", "sizes", "gtf", "pairs"].all (fun fmt =>
+      match Gen.C02.all.find? (·.1 == fmt), docFormats.find? (·.1 == fmt) with
+      | some (_, S), some (f, D) =>
+        f == fmt && !(S.linesPerEntry > 1) && !S.interiorComments && !D.interior &&
+        S.cols.map (·.2) == (D.cols.map (·.2)).map normKind && S.delim == 9 && S.comment == D.comment && D.comment != 13
+      | _, _ => false) = true := by decide
+
+-- non-vacuity of `parseFile_delimited_spec`: a CRLF BED file with a header line, an unterminated last line, rows picked
+-- in reverse order ("#h\r\nc\t1\t2\r\nd\t3\t44")
+example :
+    parseFile "bed3" Gen.C02.bed3 true [35,104,13,10, 99,9,49,9,50,13,10, 100,9,51,9,52,52] (-1) (some [1, 0])
+      = .ok (resPick (some [1, 0]) (2, [Col.strs [[99], [100]], Col.ints [1, 3], Col.ints [2, 44]])) :=
+  parseFile_delimited_spec "bed3" Gen.C02.bed3 ⟨bed3Doc, 35, false⟩ true _ (-1) (some [1, 0])
+    (by decide) (by decide) (by decide) (by decide) (by decide) (by decide) rfl rfl (by decide) (by decide)
+    (by decide) (by decide) (by decide) _ (by decide) (by decide)
 
 end C02
